@@ -38,6 +38,9 @@ pub struct C10;
 
 impl Property for C10 {
     type Case = HistCase;
+    fn freeze(&self, case: &HistCase) -> HistCase {
+        crate::props::hist::freeze_hist(case)
+    }
     fn id(&self) -> &'static str {
         "C10"
     }
@@ -160,6 +163,9 @@ pub struct C20;
 
 impl Property for C20 {
     type Case = HistCase;
+    fn freeze(&self, case: &HistCase) -> HistCase {
+        crate::props::hist::freeze_hist(case)
+    }
     fn id(&self) -> &'static str {
         "C20"
     }
@@ -251,6 +257,9 @@ pub struct C07;
 
 impl Property for C07 {
     type Case = HistCase;
+    fn freeze(&self, case: &HistCase) -> HistCase {
+        crate::props::hist::freeze_hist(case)
+    }
     fn id(&self) -> &'static str {
         "C07"
     }
@@ -376,6 +385,9 @@ pub struct C05;
 
 impl Property for C05 {
     type Case = HistCase;
+    fn freeze(&self, case: &HistCase) -> HistCase {
+        crate::props::hist::freeze_hist(case)
+    }
     fn id(&self) -> &'static str {
         "C05"
     }
@@ -508,6 +520,9 @@ pub struct C06;
 
 impl Property for C06 {
     type Case = HistCase;
+    fn freeze(&self, case: &HistCase) -> HistCase {
+        crate::props::hist::freeze_hist(case)
+    }
     fn id(&self) -> &'static str {
         "C06"
     }
@@ -652,6 +667,9 @@ pub struct C27;
 
 impl Property for C27 {
     type Case = HistCase;
+    fn freeze(&self, case: &HistCase) -> HistCase {
+        crate::props::hist::freeze_hist(case)
+    }
     fn id(&self) -> &'static str {
         "C27"
     }
